@@ -204,7 +204,7 @@ def text_is_no_collection(prog: Program, rep: Report, rule: str):
             if f is None:
                 continue
             try:
-                ps = P.paths_of(prog, f)
+                ps = P.spaths(prog, f, cls=c)  # (the text test may live in a private helper that raises: `_reject_text(decoded, val, t)`)
             except Exception:
                 continue
             bad = []
